@@ -332,6 +332,17 @@ func (rn *Runner) leaseCut(shape int) {
 	}
 	c.Net.CutMany(pairs)
 	rn.lastCut = l
+	// does the leader still reach a voter majority (e.g. it is the only voter)?
+	reach := 0
+	for _, v := range voters {
+		if v == l.name || keep[v] {
+			reach++
+		}
+	}
+	if !isVoter[l.name] || reach >= len(voters)/2+1 {
+		c.W.Log(Ev{K: "m.cut.majority-kept", S: l.name, X: name})
+		return
+	}
 	l.disk.LogIfLive(in.ep, Ev{K: "m.lease.cut", A: uint64(c.P.LeaseMs), X: name, B: uint64(len(voters))})
 }
 
@@ -400,6 +411,7 @@ func Run(sc Scenario, w *World) *Runner {
 	c.Net.SetFaults(0, 0, 0, 0, 0)
 	c.Net.Heal()
 	w.Log(Ev{K: "m.tail.begin"})
+	rn.bgCalls.Wait() // clean shutdowns still in progress must finish before their servers can restart
 	if !sc.NoTailRestart {
 		for _, nd := range c.Nodes {
 			rn.restart(nd)
